@@ -639,9 +639,9 @@ Proof.
   intros R. unfold Lens, mapv. apply Forall_map. apply Forall_forall. intros [k v] I. cbn [snd]. rewrite slice_len.
   rewrite (Lens_In (nrows c) c k v); [reflexivity|apply Rect_Lens; assumption|assumption].
 Qed.
-Lemma ref_slice c a b : Rect c -> r_slice (abs c) a b = rmap abs (c_slice c a b).
+Lemma ref_slice_plain c a b : Rect c -> Ok (mkR (keys c) (slice_list a b (c_iter c))) = rmap abs (finish (mapv (slice_list a b) c)).
 Proof.
-  intros R. unfold r_slice, c_slice. cbn [cols recs abs]. pose proof (slice_Lens c a b R) as L. rewrite (finish_id _ _ L), rmap_Ok.
+  intros R. pose proof (slice_Lens c a b R) as L. rewrite (finish_id _ _ L), rmap_Ok.
   unfold Ok. f_equal. unfold abs. rewrite keys_mapv. f_equal.
   destruct c as [|kv c1] eqn:Ec; [cbn; rewrite slice_list_eq; cbn; rewrite skipn_nil, firstn_nil; reflexivity|]. rewrite <- Ec in *.
   assert (N : c <> []) by (rewrite Ec; discriminate).
@@ -654,8 +654,54 @@ Proof.
     assert (Lv : len v = nrows c) by (apply (Lens_In (nrows c) c k v); [apply Rect_Lens; assumption|assumption]).
     rewrite slice_nth; rewrite ?slice_len, Lv; [reflexivity|lia].
 Qed.
-Lemma rect_slice c a b c' : Rect c -> c_slice c a b = Ok c' -> Rect c'.
-Proof. intros R. unfold c_slice. apply finish_Rect. rewrite keys_mapv. apply R. Qed.
+(* picking rows by a list of valid positions: column-wise on the dict of lists = row-wise on the records *)
+Lemma nth_map_idx {A} (g : Z -> A) (idx : list Z) j d : j < len idx -> nth j (map g idx) d = g (nth j idx 0%Z).
+Proof. intros H. rewrite (nth_indep _ d (g 0%Z)) by (rewrite map_length; assumption). apply map_nth. Qed.
+Lemma select_rows c (idx : list Z) : Rect c -> (forall i, In i idx -> Z.to_nat i < nrows c) ->
+  abs (mapv (fun col => map (fun i => nth (Z.to_nat i) col CNone) idx) c) = mkR (keys c) (map (fun i => nth (Z.to_nat i) (c_iter c) []) idx).
+Proof.
+  intros R B. unfold abs. rewrite keys_mapv. f_equal. destruct c as [|kv c1] eqn:Ec.
+  - destruct idx as [|i0 idx0]; [reflexivity|]. exfalso. specialize (B i0 (or_introl eq_refl)). cbn in B. lia.
+  - rewrite <- Ec in *. rewrite (iter_Lens (len idx)).
+    + rewrite (map_ext_in _ (fun i => rec_at (Z.to_nat i) c) idx).
+      * rewrite <- (map_seq_nth (fun i => rec_at (Z.to_nat i) c) idx 0%Z). apply map_ext_in. intros j Hj. apply in_seq in Hj.
+        unfold rec_at, mapv. rewrite map_map. apply map_ext. intros [k v]. cbn [fst snd]. f_equal. apply nth_map_idx. lia.
+      * intros i I. rewrite iter_rect by assumption. exact (nth_map_seq (fun i0 => rec_at i0 c) (nrows c) (Z.to_nat i) [] (B i I)).
+    + unfold Lens, mapv. apply Forall_map. apply Forall_forall. intros; cbn [snd]. apply map_length.
+    + rewrite Ec. discriminate.
+Qed.
+Lemma step_cols c a b s : Rect c -> c <> [] ->
+  mapv (slice_step CNone a b s) c =
+  mapv (fun col => map (fun i => nth (Z.to_nat i) col CNone) (filter (in_range (nrows c)) (slice_idx a b s (Z.of_nat (nrows c))))) c.
+Proof.
+  intros R N. unfold mapv. apply map_ext_in. intros [k v] I. cbn [fst snd]. f_equal. unfold slice_step, sel_idx.
+  rewrite (Lens_In (nrows c) c k v); [reflexivity|apply Rect_Lens; assumption|assumption].
+Qed.
+Lemma in_range_lt n i : in_range n i = true -> Z.to_nat i < n.
+Proof. unfold in_range. intros H. apply andb_true_iff in H. destruct H as [H1 H2]. apply Z.leb_le in H1. apply Z.ltb_lt in H2. lia. Qed.
+Lemma sel_idx_nil {A} (d : A) idx : sel_idx d idx [] = [].
+Proof.
+  unfold sel_idx. replace (filter (in_range (len (@nil A))) idx) with (@nil Z); [reflexivity|]. symmetry.
+  induction idx as [|i idx IH]; [reflexivity|]. cbn [filter]. replace (in_range (len (@nil A)) i) with false; [exact IH|].
+  unfold in_range. cbn. destruct (0 <=? i)%Z eqn:E1; destruct (i <? 0)%Z eqn:E2; try reflexivity. apply Z.leb_le in E1. apply Z.ltb_lt in E2. lia.
+Qed.
+Lemma ref_slice c a b st : Rect c -> r_slice (abs c) a b st = rmap abs (c_slice c a b st).
+Proof.
+  intros R. unfold r_slice, c_slice. cbn [cols recs abs]. destruct st as [s|]; [|apply ref_slice_plain; assumption].
+  destruct (Z.eqb s 0); [destruct c; reflexivity|].
+  destruct c as [|kv c1] eqn:Ec; [cbn; unfold slice_step; rewrite sel_idx_nil; reflexivity|]. rewrite <- Ec in *. assert (N : c <> []) by (rewrite Ec; discriminate).
+  rewrite step_cols by assumption.
+  set (idx := filter (in_range (nrows c)) (slice_idx a b s (Z.of_nat (nrows c)))).
+  assert (B : forall i, In i idx -> Z.to_nat i < nrows c). { intros i I. apply filter_In in I. apply in_range_lt. apply I. }
+  rewrite (finish_id (len idx)).
+  - rewrite rmap_Ok, select_rows by assumption. unfold slice_step, sel_idx. rewrite iter_length by assumption. reflexivity.
+  - unfold Lens, mapv. apply Forall_map. apply Forall_forall. intros; cbn [snd]. apply map_length.
+Qed.
+Lemma rect_slice c a b st c' : Rect c -> c_slice c a b st = Ok c' -> Rect c'.
+Proof.
+  intros R. unfold c_slice. destruct st as [s|]; [|apply finish_Rect; rewrite keys_mapv; apply R].
+  destruct (Z.eqb s 0); [destruct c; [intros H; inversion H; apply Rect_nil|discriminate]|]. apply finish_Rect. rewrite keys_mapv. apply R.
+Qed.
 
 (* ------------------------------------------------------------------ constructor from columns *)
 Lemma lens_nil : lens [] = Some 0.
@@ -900,6 +946,7 @@ Proof.
     + eapply rect_concat; eassumption.
     + destruct (c_of_record (dict_of rc)); cbn [bind] in E; [eapply rect_concat; eassumption|discriminate].
   - inversion E; subst. apply RD. assumption.
+  - destruct (Z.eqb s0 0); [discriminate|]. eapply rect_ints; [apply RD; assumption|eassumption].
 Qed.
 
 (* one step of the dict-of-lists model commutes with the abstraction and yields the same output *)
@@ -937,6 +984,7 @@ Proof.
       change [abs (rd cops s r); abs t2] with (map abs [rd cops s r; t2]). apply ref_concat. constructor; [apply RD; assumption|]. constructor; [|constructor].
       eapply rect_of_record; [apply NoDup_dict_of|eassumption].
   - reflexivity.
+  - destruct (Z.eqb s0 0); [reflexivity|]. apply ref_ints. apply RD. assumption.
 Qed.
 
 Lemma run_fold_inv ops s acc : Inv s ->
